@@ -37,6 +37,17 @@ PROPS = {
             dict(name="TestConc", quick=300, thorough=2500, shards_thorough=8, race=True, shrinktime="2s"),
         ],
     ),
+    "C05": dict(
+        pkg="c05", level="exploration",
+        technique="model-based property testing (rapid) of handler arrangements with injected panics, real-time watchdog for hangs",
+        level_text="Random search over handler lists (every kind/option combination, position, panic timing and panic value) with an exact model of which invocations and panic-handler calls must happen; hangs (leaked Sequential lock, lost Done) are found by a 20 s watchdog confirmed by a second run.",
+        level_note="Panics in filters, hooks and in the panic handler itself are outside the property; a process crash while a case runs is attributed to that case.",
+        crash_is_violation=True,
+        assumptions=COMMON_ASSUME + ["no generated handler blocks, so a 20 s hang reproduced twice is a lost unlock/Done, not load"],
+        tests=[
+            dict(name="TestPanics", quick=6000, thorough=50000, shards_thorough=16),
+        ],
+    ),
 }
 
 HOOK_COMMITS = []
